@@ -1408,6 +1408,35 @@ def switch_bbox_epsg_axis_order""", 'C01.a'),
                              f' {global_file_permissions}')
 
                 lock_timeout""", 'C09.i', 'revert of fix D20'),
+    M('M-C02j-revert-D21', 'mapproxy/config/loader.py', """        if self.has_multiple_grids():
+            raise ConfigurationError(
+                "using single mbtiles file for cache with multiple grids in %s" %
+                (self.conf['name']),
+            )
+
+""", "", 'C02.j', 'revert of fix D21'),
+    M('M-C02j-sqlite-shared-dir', 'mapproxy/config/loader.py', """            cache_dir = os.path.join(
+                self.context.globals.abspath(cache_dir),
+                grid_conf.tile_grid().name
+            )
+        else:
+            cache_dir = self.cache_dir()
+            cache_dir = os.path.join(
+                cache_dir,
+                self.conf['name'],
+                grid_conf.tile_grid().name
+            )
+
+        sqlite_timeout""", """            cache_dir = self.context.globals.abspath(cache_dir)
+        else:
+            cache_dir = self.cache_dir()
+            cache_dir = os.path.join(
+                cache_dir,
+                self.conf['name'],
+                grid_conf.tile_grid().name
+            )
+
+        sqlite_timeout""", 'C02.j', 'explicit sqlite directory shared by all grids'),
     E('E-C15h-swapped-compare', 'mapproxy/util/async_.py', """        if len(args) == 1:
             return self._single_call(func, args[0], use_result_objects)""", """        if 1 == len(args):
             return self._single_call(func, args[0], use_result_objects)""", 'operands swapped'),
